@@ -28,6 +28,10 @@ def run(tier, scratch, record=False):
     dev = vlib.run_tlc(scratch, "MemLayout", "MemLayout_dev.cfg", workers=2, timeout=300)
     if not any("WritesInsideAddressed is violated" in e for e in dev.errors):
         raise vlib.Infra("MemLayout_dev.cfg did not produce the PointerSizedZeroFill counterexample: %s" % dev.errors[:3])
+    for cfg in ("MemLayout_dev_tnull.cfg", "MemLayout_dev_qwide.cfg"):
+        d2 = vlib.run_tlc(scratch, "MemLayout", cfg, workers=2, timeout=300)
+        if not any("WritesInsideAddressed is violated" in e for e in d2.errors):
+            raise vlib.Infra("%s did not produce its counterexample: %s" % (cfg, d2.errors[:3]))
     cases = res.prints.get("CASE") or []
     if len(cases) < 1000:
         raise vlib.Infra("MemLayout exported %d cases" % len(cases))
